@@ -12,7 +12,8 @@
      internal/pkg/observer/EventNotifier.go                           SynchronousAnnealingEventNotifier
 
        func (sa *SimpleAnnealer) Anneal() {
-           defer sa.handlePanicRecovery()              // registered FIRST  => runs LAST
+           completed := false
+           defer func() { sa.handlePanicRecovery(recover(), completed) }()   // registered FIRST => runs LAST
            sa.SolutionExplorer().Initialise()          // a panic here: no TearDown is registered yet
            defer sa.SolutionExplorer().TearDown()      // registered SECOND => runs FIRST
            sa.annealingStarted()
@@ -24,9 +25,13 @@
                done = sa.checkIfDone()                 // currentIteration >= MaximumIterations
            }
            sa.annealingFinished()
+           completed = true                            // before the deferred TearDown runs
        }
-       func (sa *SimpleAnnealer) handlePanicRecovery() {
-           if r := recover(); r != nil {               // go.mod says `go 1.17`: panic(nil) gives r == nil
+       func (sa *SimpleAnnealer) handlePanicRecovery(r interface{}, completed bool) {
+           if r == nil && !completed {                 // go.mod says `go 1.17`: panic(nil) gives r == nil
+               r = errors.New("panic called with a nil argument")
+           }
+           if r != nil {
                if rAsError, isError := r.(error); isError {
                    wrappingError := errors.Wrap(rAsError, "...")
                    sa.LogHandler().Error(wrappingError)
@@ -35,6 +40,13 @@
                panic(r)
            }
        }
+
+   Faults.  A panic can be raised by the explorer (Initialise, TryRandomChange, CoolDown, TearDown) or by an
+   OBSERVER while it is handed an event: SynchronousAnnealingEventNotifier.NotifyObserversOfEvent is a plain
+   loop over the observers, so the panic of observer j propagates through iterationStarted() etc. into
+   Anneal(): observers 0..j have been handed the event, observers j+1.. never are, nothing else happens
+   before the deferred calls run.  A panic raised by the deferred TearDown() REPLACES the panic in flight
+   (Go semantics: recover() reports the most recent panic).
 
    The trace is a list of events, each stamped with the explorer's temperature at that moment
    (for observer events: the `Temperature` attribute the observers are handed).  Calls on the
@@ -66,16 +78,29 @@ Import ListNotations.
 Inductive payload :=
 | PayloadError     (* a value implementing `error`: wrapped, logged at Error level, the WRAPPER is re-panicked *)
 | PayloadOther     (* any other non-nil value: re-panicked as it is *)
-| PayloadNil.      (* panic(nil) under go.mod `go 1.17` (< 1.21): recover() returns nil => swallowed *)
+| PayloadNil.      (* panic(nil) under go.mod `go 1.17` (< 1.21): recover() returns nil; since the `completed` flag
+                      the handler re-raises errors.Wrap of a descriptive error for it *)
 
 (* The explorer script: what happens in the iteration whose number is k. *)
 Inductive step_outcome :=
 | StepOk
 | PanicInTry (p : payload)          (* TryRandomChange panics *)
 | PanicInCoolBefore (p : payload)   (* CoolDown panics before the temperature has been touched *)
-| PanicInCoolAfter (p : payload).   (* CoolDown panics after multiply + "Cooling" notification *)
+| PanicInCoolAfter (p : payload)    (* CoolDown panics after multiply + "Cooling" notification *)
+| PanicInStartObserver (j : nat) (p : payload)    (* observer j panics when handed StartedIteration k *)
+| PanicInFinishObserver (j : nat) (p : payload).  (* observer j panics when handed FinishedIteration k *)
 
 Inductive init_outcome := InitOk | InitPanics (p : payload).
+
+(* faults outside the iterations *)
+Record faults := mkFaults {
+  f_init : init_outcome;                 (* Initialise() panics *)
+  f_start : option (nat * payload);      (* observer j panics when handed the StartedAnnealing event *)
+  f_finish : option (nat * payload);     (* observer j panics when handed the FinishedAnnealing event *)
+  f_teardown : option payload }.         (* TearDown() panics (after having been entered) *)
+
+Definition no_faults : faults := mkFaults InitOk None None None.
+Definition init_faults (i : init_outcome) : faults := mkFaults i None None None.
 
 Inductive event :=
 (* pseudo-events: a call was made (recorded on entry) *)
@@ -116,12 +141,18 @@ Inductive body_result :=
 
 Inductive outcome :=
 | Finished
-| Repanicked (k : nat) (wrapped : bool)   (* Anneal() itself panics; wrapped = errors.Wrap of the original *)
-| Swallowed (k : nat)                     (* panic(nil): Anneal() returns normally, no FinishedAnnealing *)
+| Repanicked (k : nat) (p : payload)      (* Anneal() itself panics.  p = what had been given to the panic in flight:
+                                             PayloadError: errors.Wrap of that error is raised (and logged);
+                                             PayloadOther: the very value is raised;
+                                             PayloadNil:   errors.Wrap of a descriptive error is raised (and logged) *)
+| Swallowed (k : nat)                     (* Anneal() returns normally although something panicked: only panic(nil) inside
+                                             TearDown() after a COMPLETED run (finish event sent) -- AnnealLoopProofs.swallowed_only_if *)
 | OutOfFuel.
 
 Record run := mkRun {
   trace : list stamped;
+  cut : option nat;              (* Some j: the LAST observer event of the trace was handed to observers 0..j only
+                                    (observer j panicked on it) *)
   final_iteration : nat;         (* currentIteration afterwards *)
   final_temperature : float;
   result : outcome }.
@@ -141,11 +172,15 @@ Section Loop.
       let c1 := S c in                                                  (* sa.currentIteration++ *)
       let e1 := [(EvStartIter c1, t); (ExplorerTry c1, t)] in
       match script c1 with
+      | PanicInStartObserver _ p => ([(EvStartIter c1, t)], c1, t, Panicking c1 p)
       | PanicInTry p => (e1, c1, t, Panicking c1 p)
       | PanicInCoolBefore p => (e1 ++ [(ExplorerCool c1, t)], c1, t, Panicking c1 p)
       | PanicInCoolAfter p =>
           let t1 := cool a t in
           (e1 ++ [(ExplorerCool c1, t); (EvCooling c1, t1)], c1, t1, Panicking c1 p)
+      | PanicInFinishObserver _ p =>
+          let t1 := cool a t in
+          (e1 ++ [(ExplorerCool c1, t); (EvCooling c1, t1); (EvFinishIter c1, t1)], c1, t1, Panicking c1 p)
       | StepOk =>
           let t1 := cool a t in
           let e2 := e1 ++ [(ExplorerCool c1, t); (EvCooling c1, t1); (EvFinishIter c1, t1)] in
@@ -160,54 +195,85 @@ Section Loop.
     if N =? 0 then ([], c0, T0, Returned) else loop N c0 T0.
 End Loop.
 
-(* The deferred handlePanicRecovery, applied to the trace so far. *)
-Definition recover_handler (tr : list stamped) (c : nat) (t : float) (r : body_result) : run :=
+(* which observer panicked in a step (None: the explorer did, or nobody) *)
+Definition observer_of (o : step_outcome) : option nat :=
+  match o with
+  | PanicInStartObserver j _ | PanicInFinishObserver j _ => Some j
+  | _ => None
+  end.
+
+(* The deferred handlePanicRecovery(recover(), completed), applied to the trace so far. *)
+Definition recover_handler (completed : bool) (cu : option nat) (tr : list stamped) (c : nat) (t : float)
+           (r : body_result) : run :=
   match r with
-  | Returned => mkRun tr c t Finished
-  | Panicking k PayloadError => mkRun (tr ++ [(LogError, t)]) c t (Repanicked k true)
-  | Panicking k PayloadOther => mkRun tr c t (Repanicked k false)
-  | Panicking k PayloadNil => mkRun tr c t (Swallowed k)
-  | FuelExhausted => mkRun tr c t OutOfFuel
+  | Returned => mkRun tr cu c t Finished
+  | Panicking k PayloadError => mkRun (tr ++ [(LogError, t)]) cu c t (Repanicked k PayloadError)
+  | Panicking k PayloadOther => mkRun tr cu c t (Repanicked k PayloadOther)
+  | Panicking k PayloadNil =>
+      if completed then mkRun tr cu c t (Swallowed k)                    (* r == nil && completed: nothing to do *)
+      else mkRun (tr ++ [(LogError, t)]) cu c t (Repanicked k PayloadNil)  (* r = errors.New(...): wrapped, logged, raised *)
+  | FuelExhausted => mkRun tr cu c t OutOfFuel
+  end.
+
+(* the deferred TearDown(): entered, and if it panics its panic replaces whatever was in flight *)
+Definition after_teardown (td : option payload) (c : nat) (r : body_result) : body_result :=
+  match td, r with
+  | _, FuelExhausted => FuelExhausted
+  | Some q, _ => Panicking c q
+  | None, _ => r
   end.
 
 (* SimpleAnnealer.Anneal() on an instance whose currentIteration is c0. *)
-Definition anneal_simple (init : init_outcome) (c0 N : nat) (script : nat -> step_outcome)
+Definition anneal_simple (fl : faults) (c0 N : nat) (script : nat -> step_outcome)
            (T0 a : float) : run :=
-  match init with
+  match f_init fl with
   | InitPanics p =>                      (* TearDown was never deferred *)
-      recover_handler [(ExplorerInit, T0)] c0 T0 (Panicking c0 p)
+      recover_handler false None [(ExplorerInit, T0)] c0 T0 (Panicking c0 p)
   | InitOk =>
-      let '(es, c, t, r) := for_loop N script a c0 T0 in
-      let es' := match r with
-                 | Returned => es ++ [(EvFinish c, t)]      (* sa.annealingFinished() *)
-                 | _ => es
-                 end in
+      (* body after `defer TearDown`: events so far, counter, temperature, how it ended, who cut the last event *)
+      let '(es, c, t, r, cu) :=
+        match f_start fl with
+        | Some (j, p) => ([(EvStart, T0)], c0, T0, Panicking c0 p, Some j)     (* sa.annealingStarted() panics *)
+        | None =>
+            let '(es, c, t, r) := for_loop N script a c0 T0 in
+            match r with
+            | Returned =>
+                match f_finish fl with                                        (* sa.annealingFinished() *)
+                | Some (j, p) => ((EvStart, T0) :: es ++ [(EvFinish c, t)], c, t, Panicking c p, Some j)
+                | None => ((EvStart, T0) :: es ++ [(EvFinish c, t)], c, t, Returned, None)
+                end
+            | Panicking k _ => ((EvStart, T0) :: es, c, t, r, observer_of (script k))
+            | FuelExhausted => ((EvStart, T0) :: es, c, t, r, None)
+            end
+        end in
+      let completed := match r with Returned => true | _ => false end in
       (* deferred TearDown runs first, then the recovery handler *)
-      recover_handler ([(ExplorerInit, T0); (EvStart, T0)] ++ es' ++ [(ExplorerTearDown, t)]) c t r
+      recover_handler completed cu ((ExplorerInit, T0) :: es ++ [(ExplorerTearDown, t)]) c t
+                      (after_teardown (f_teardown fl) c r)
   end.
 
 Inductive annealer_kind := SimpleAnnealer | ElapsedTimeTrackingAnnealer.
 
 (* ElapsedTimeTrackingAnnealer.Anneal(): SimpleAnnealer.Anneal(), and if that RETURNS, one Info line. *)
-Definition anneal_gen (kind : annealer_kind) (init : init_outcome) (c0 N : nat)
+Definition anneal_gen (kind : annealer_kind) (fl : faults) (c0 N : nat)
            (script : nat -> step_outcome) (T0 a : float) : run :=
-  let r := anneal_simple init c0 N script T0 a in
+  let r := anneal_simple fl c0 N script T0 a in
   match kind with
   | SimpleAnnealer => r
   | ElapsedTimeTrackingAnnealer =>
       match result r with
       | Finished | Swallowed _ =>
-          mkRun (trace r ++ [(LogInfo, final_temperature r)]) (final_iteration r) (final_temperature r) (result r)
+          mkRun (trace r ++ [(LogInfo, final_temperature r)]) (cut r) (final_iteration r) (final_temperature r) (result r)
       | _ => r
       end
   end.
 
 (* The run of a fresh annealer (what scenario.Runner.run does: DeepClone() of a never-annealed one). *)
 Definition anneal (N : nat) (script : nat -> step_outcome) (T0 a : float) : run :=
-  anneal_gen SimpleAnnealer InitOk 0 N script T0 a.
+  anneal_gen SimpleAnnealer (init_faults InitOk) 0 N script T0 a.     (* init_faults InitOk = no_faults *)
 
 Definition anneal_elapsed (N : nat) (script : nat -> step_outcome) (T0 a : float) : run :=
-  anneal_gen ElapsedTimeTrackingAnnealer InitOk 0 N script T0 a.
+  anneal_gen ElapsedTimeTrackingAnnealer (init_faults InitOk) 0 N script T0 a.
 
 Definition events (r : run) : list event := map fst (trace r).
 Definition observer_trace (r : run) : list stamped := filter (fun x => is_observer_event (fst x)) (trace r).
@@ -220,6 +286,27 @@ Definition deliver {A} (m : nat) (x : event * A) : list (option nat * (event * A
 
 Definition deliveries {A} (m : nat) (tr : list (event * A)) : list (option nat * (event * A)) :=
   flat_map (deliver m) tr.
+
+(* an observer panicked on the last observer event of the trace: that event reaches observers 0..j only *)
+Definition has_observer_event {A} (tr : list (event * A)) : bool :=
+  existsb (fun y => is_observer_event (fst y)) tr.
+
+Definition deliver_upto {A} (m j : nat) (x : event * A) : list (option nat * (event * A)) :=
+  map (fun i => (Some i, x)) (seq 0 (Nat.min m (S j))).
+
+Fixpoint deliveries_cut {A} (m j : nat) (tr : list (event * A)) : list (option nat * (event * A)) :=
+  match tr with
+  | [] => []
+  | x :: rest =>
+      (if is_observer_event (fst x) && negb (has_observer_event rest) then deliver_upto m j x else deliver m x)
+        ++ deliveries_cut m j rest
+  end.
+
+Definition run_deliveries (m : nat) (r : run) : list (option nat * stamped) :=
+  match cut r with
+  | None => deliveries m (trace r)
+  | Some j => deliveries_cut m j (trace r)
+  end.
 
 Definition is_for (i : nat) {B} (d : option nat * B) : bool :=
   match fst d with Some j => Nat.eqb i j | None => false end.
@@ -247,22 +334,25 @@ Definition partial_block (a T0 : float) (k : nat) (o : step_outcome) : list stam
   let t1 := temp_after a T0 k in
   match o with
   | StepOk => iteration_block a T0 k
+  | PanicInStartObserver _ _ => [(EvStartIter k, t)]
   | PanicInTry _ => [(EvStartIter k, t); (ExplorerTry k, t)]
   | PanicInCoolBefore _ => [(EvStartIter k, t); (ExplorerTry k, t); (ExplorerCool k, t)]
   | PanicInCoolAfter _ => [(EvStartIter k, t); (ExplorerTry k, t); (ExplorerCool k, t); (EvCooling k, t1)]
+  | PanicInFinishObserver _ _ => iteration_block a T0 k
   end.
 
 Definition payload_of (o : step_outcome) : option payload :=
   match o with
   | StepOk => None
-  | PanicInTry p | PanicInCoolBefore p | PanicInCoolAfter p => Some p
+  | PanicInTry p | PanicInCoolBefore p | PanicInCoolAfter p
+  | PanicInStartObserver _ p | PanicInFinishObserver _ p => Some p
   end.
 
 (* number of multiplications performed when iteration k ends with outcome o *)
 Definition cooled_after (k : nat) (o : step_outcome) : nat :=
   match o with
-  | StepOk | PanicInCoolAfter _ => k
-  | PanicInTry _ | PanicInCoolBefore _ => pred k
+  | StepOk | PanicInCoolAfter _ | PanicInFinishObserver _ _ => k
+  | PanicInTry _ | PanicInCoolBefore _ | PanicInStartObserver _ _ => pred k
   end.
 
 Definition skeleton (N : nat) : list event :=
@@ -270,6 +360,16 @@ Definition skeleton (N : nat) : list event :=
 
 Definition skeleton_until_panic (k : nat) : list event :=
   [EvStart] ++ flat_map (fun j => [EvStartIter j; EvFinishIter j]) (seq 1 (pred k)) ++ [EvStartIter k].
+
+(* the skeleton events of iteration k that were sent when it ended with outcome o *)
+Definition skeleton_of_step (k : nat) (o : step_outcome) : list event :=
+  match o with
+  | StepOk | PanicInFinishObserver _ _ => [EvStartIter k; EvFinishIter k]
+  | _ => [EvStartIter k]
+  end.
+
+Definition skeleton_until_fault (k : nat) (o : step_outcome) : list event :=
+  [EvStart] ++ flat_map (fun j => [EvStartIter j; EvFinishIter j]) (seq 1 (pred k)) ++ skeleton_of_step k o.
 
 (* counting the calls the annealer made on its explorer *)
 Definition is_try (e : event) : bool := match e with ExplorerTry _ => true | _ => false end.
